@@ -154,11 +154,14 @@ def gen_ops(rng, keys, lazy, n_ops):
 
 def gen_lazy_case(rng, tier):
     if rng.chance(0.5):
-        # the probe module: arbitrary LAZY_ATTRS over four constructor parameters
+        # the probe module: arbitrary LAZY_ATTRS over four constructor parameters; its init_modules raises
+        # when some parameter holds the designated bad value
         lazy = sorted(rng.sample(PROBE_PARAMS, rng.randint(0, 4)))
         args = [None if rng.chance(0.6) else 10 + i for i in range(4)]
         ops = gen_ops(rng, PROBE_PARAMS + ["other"], lazy, rng.randint(0, 8))
-        return {"kind": "lazy", "target": "probe", "lazy": lazy, "args": args, "ops": ops}
+        used = [v for v in args if v is not None] + [v for k, v in ops if v is not None and k != "other"]
+        bad = rng.pick(used) if used and rng.chance(0.3) else None
+        return {"kind": "lazy", "target": "probe", "lazy": lazy, "args": args, "ops": ops, "bad": bad}
     # a real encoder class: the three lazy attributes in any order / interleaving
     cls = rng.pick(sorted(H.CLASSES))
     st = rng.pick(DOC_KEYS[cls][:1] if cls != "LinearModelEncoder" else ["numerical", "categorical"])
@@ -173,10 +176,14 @@ def gen_lazy_case(rng, tier):
         ops.append([k, "v"])
         if rng.chance(0.15):
             ops.append([k, "v"])               # re-assignment of the same value
-    if rng.chance(0.25) and ops and cls != "TimestampEncoder":
+    # an NA strategy the stype does not admit, given to the constructor: init_modules must reject it
+    bad_na = None
+    if rng.chance(0.25):
+        bad_na = rng.pick([x for x in H.ALL_NA if x not in H.NA_ADMISSIBLE[st]])
+    if rng.chance(0.25) and ops and cls != "TimestampEncoder" and bad_na is None:
         ops.insert(rng.randrange(len(ops) + 1), ["na_strategy", None])
     return {"kind": "lazy", "target": "encoder", "cls": cls, "stype": st, "eager": eager, "ops": ops,
-            "channels": rng.randint(1, 3), "seed": rng.randint(0, 10 ** 6)}
+            "bad_na": bad_na, "channels": rng.randint(1, 3), "seed": rng.randint(0, 10 ** 6)}
 
 
 def gen_reject_case(rng, tier):
@@ -220,7 +227,9 @@ def exhaustive_lazy():
                     ops.append([k, 7])
                     if m == 2:
                         ops.append([k, None])       # clobber
-                out.append({"kind": "lazy", "target": "probe", "lazy": list(lazy), "args": [None] * 4, "ops": ops})
+                for bad in (None, 7):
+                    out.append({"kind": "lazy", "target": "probe", "lazy": list(lazy), "args": [None] * 4,
+                                "ops": ops, "bad": bad})
     return out
 
 
@@ -466,48 +475,64 @@ def run_frame(case):
 
 
 class Probe(LazyBase):
-    """A lazily configured module whose init_modules records what it sees."""
+    """A lazily configured module whose init_modules records what it sees and rejects (raises on)
+    a configuration in which some parameter holds the class's BAD value."""
+    BAD = None
+    CALLS = None          # class-level log, so that a raising constructor is still observable
 
     def __init__(self, p0=None, p1=None, p2=None, p3=None):
-        self.calls = []
         super().__init__(p0, p1, p2, p3)
 
     def init_modules(self):
-        self.calls.append([[k, getattr(self, k, None)] for k in PROBE_PARAMS])
+        snap = [[k, getattr(self, k, None)] for k in PROBE_PARAMS]
+        type(self).CALLS.append(snap)
+        if type(self).BAD is not None and any(v == type(self).BAD for _, v in snap):
+            raise ValueError("rejected configuration")
 
     def forward(self, x):
         return x
 
 
-def probe_class(lazy):
-    return type("ProbeL", (Probe,), {"LAZY_ATTRS": set(lazy)})
+def probe_class(lazy, bad=None):
+    return type("ProbeL", (Probe,), {"LAZY_ATTRS": set(lazy), "BAD": bad, "CALLS": []})
 
 
-def lazy_obs(m, use):
+def lazy_obs(m, use, raised):
     try:
         use(m)
         ok = True
     except Exception:
         ok = False
-    return {"full": bool(m.is_fully_specified), "use_ok": ok, "fired": copy.deepcopy(m.calls)}
+    return {"full": bool(m.is_fully_specified), "use_ok": ok, "raised": raised, "fired": copy.deepcopy(type(m).CALLS)}
 
 
 def run_lazy(case):
     if case["target"] == "probe":
-        cls = probe_class(case["lazy"])
-        m = cls(*case["args"])
+        cls = probe_class(case["lazy"], case.get("bad"))
         use = lambda mod: mod(1)  # noqa: E731
-        trace = [lazy_obs(m, use)]
+        try:
+            m = cls(*case["args"])
+        except ValueError:
+            return {"ctor_raised": True, "fired": copy.deepcopy(cls.CALLS), "trace": [], "eager": None}
+        trace = [lazy_obs(m, use, False)]
         for k, v in case["ops"]:
-            setattr(m, k, v)
-            trace.append(lazy_obs(m, use))
-        # the eager twin: constructed from the values held when the module completed
+            try:
+                setattr(m, k, v)
+                raised = False
+            except ValueError:
+                raised = True
+            trace.append(lazy_obs(m, use, raised))
+        # the eager twin: constructed from the values held when init_modules was called
         eager = None
-        if m.calls:
-            vals = [v for _, v in m.calls[0]]
-            e = cls(*vals)
-            eager = {"full": bool(e.is_fully_specified), "fired": e.calls}
-        return {"trace": trace, "eager": eager}
+        if cls.CALLS:
+            vals = [v for _, v in cls.CALLS[0]]
+            cls2 = probe_class(case["lazy"], case.get("bad"))
+            try:
+                e = cls2(*vals)
+                eager = {"raised": False, "full": bool(e.is_fully_specified), "fired": cls2.CALLS}
+            except ValueError:
+                eager = {"raised": True, "fired": cls2.CALLS}
+        return {"ctor_raised": False, "trace": trace, "eager": eager}
     with ctx_of(case["cls"] != "LinearBucketEncoder"):
         return run_lazy_encoder(case)
 
@@ -523,6 +548,8 @@ def run_lazy_encoder(case):
     dims = [s["EMB_DIM"] for s in stats_j] if st == "embedding" else None
     spec = {"cls": case["cls"], "na": None if case["cls"] != "TimestampEncoder" else "MEDIAN_TIMESTAMP", "post": None,
             "kw": {"out_size": 2} if case["cls"] == "TimestampEncoder" else {}}
+    if case.get("bad_na"):
+        spec["na"] = case["bad_na"]
     vals = {"out_channels": case["channels"], "stats_list": stats, "stype": H.st_of(st), "na_strategy": None}
     base = getattr(E, case["cls"])
     counted = type("Counted" + case["cls"], (base,), {})
@@ -564,21 +591,30 @@ def run_lazy_encoder(case):
 
     trace = []
     torch.manual_seed(case["seed"])
-    m = make(case["eager"])
+    try:
+        m = make(case["eager"])
+    except ValueError as ex:
+        # the constructor itself completed the module and init_modules rejected the configuration
+        return {"ctor_raised": True, "n_init": counted._n_init, "trace": [], "exc": None, "msg": str(ex)[:150]}
     o, _ = obs_of(m)
+    o["raised"] = False
     trace.append(o)
     exc = None
     for k, v in case["ops"]:
         torch.manual_seed(case["seed"])           # the completing assignment initialises from this seed
+        raised = False
         try:
             setattr(m, k, None if v is None else vals[k])
+        except ValueError:
+            raised = True                         # init_modules rejected the configuration
         except Exception as ex:
             exc = C.exc_name(ex)
             break
         o, out = obs_of(m)
+        o["raised"] = raised
         trace.append(o)
-    res = {"trace": trace, "exc": exc}
-    if exc is None and m.is_fully_specified:
+    res = {"ctor_raised": False, "trace": trace, "exc": exc}
+    if exc is None and m.is_fully_specified and not case.get("bad_na"):
         counted._n_init = 0
         torch.manual_seed(case["seed"])
         e = make(["out_channels", "stats_list", "stype"])
@@ -587,6 +623,12 @@ def run_lazy_encoder(case):
         with torch.no_grad():
             o1, o2 = use(m.eval()), use(e.eval())
         res["eager"] = {"same_state": bool(same_sd), "same_out": bool(H.same(o1, o2)), "n_init": counted._n_init}
+    if case.get("bad_na"):
+        try:
+            make(["out_channels", "stats_list", "stype"])
+            res["eager_rejects"] = False
+        except ValueError:
+            res["eager_rejects"] = True
     return res
 
 
@@ -737,15 +779,19 @@ def oracle_frame(case, obs):
 
 
 def consistent_prefix(case):
-    """Reference semantics of lazy configuration for sequences that never assign None to an
-    attribute that already holds a value: (fully specified?, number of builds, values at build)."""
+    """Reference semantics of lazy configuration for sequences that never assign None to an attribute that
+    already holds a value: per step (fully specified?, configuration init_modules was called with, does the
+    statement raise -- i.e. does that configuration hold the rejected value)."""
     cur = dict(zip(PROBE_PARAMS, case["args"]))
     lazy = set(case["lazy"])
+    bad = case.get("bad")
     supplied = {k for k in lazy if cur[k] is not None}
     built = None
+    raised = False
     if supplied == lazy:
         built = [[k, cur[k]] for k in PROBE_PARAMS]
-    ref = [(supplied == lazy, built)]
+        raised = bad is not None and any(v == bad for _, v in built)
+    ref = [(supplied == lazy, built, raised)]
     for k, v in case["ops"]:
         if v is None and k in supplied:
             return ref, False                      # clobbering: outside the property
@@ -753,16 +799,26 @@ def consistent_prefix(case):
             cur[k] = v
         if k in lazy and v is not None:
             supplied.add(k)
+        raised = False
         if built is None and supplied == lazy:
             built = [[kk, cur[kk]] for kk in PROBE_PARAMS]
-        ref.append((supplied == lazy, built))
+            raised = bad is not None and any(x == bad for _, x in built)
+        ref.append((supplied == lazy, built, raised))
     return ref, True
 
 
 def oracle_lazy(case, obs):
     if case["target"] == "probe":
         ref, clean = consistent_prefix(case)
-        for i, ((full, built), o) in enumerate(zip(ref, obs["trace"])):
+        if obs["ctor_raised"] != ref[0][2]:
+            return dict(key="lazy-rejection", what=f"constructor raised={obs['ctor_raised']}, expected {ref[0][2]} "
+                                                   f"(init_modules rejects configurations holding {case.get('bad')})")
+        if obs["ctor_raised"]:
+            if obs["fired"] != [ref[0][1]]:
+                return dict(key="lazy-build", what="the raising constructor called init_modules with "
+                                                   f"{obs['fired']}", expected=[ref[0][1]], observed=obs["fired"])
+            return None
+        for i, ((full, built, raised), o) in enumerate(zip(ref, obs["trace"])):
             if o["use_ok"] != full or o["full"] != full:
                 return dict(key="lazy-use-before-complete" if o["use_ok"] and not full else "lazy-refuses-complete",
                             what=f"after step {i}: module complete={full} but is_fully_specified={o['full']}, "
@@ -771,32 +827,63 @@ def oracle_lazy(case, obs):
             if o["fired"] != want:
                 return dict(key="lazy-build", what=f"after step {i}: init_modules ran {len(o['fired'])} time(s) with "
                                                    f"{o['fired']}, expected {want}", expected=want, observed=o["fired"])
-        if clean and obs["eager"] is not None:
-            if not obs["eager"]["full"] or obs["eager"]["fired"] != obs["trace"][-1]["fired"]:
+            if o["raised"] != raised:
+                return dict(key="lazy-rejection", what=f"step {i} raised={o['raised']}, expected {raised}: the "
+                                                       "completing assignment must raise exactly when init_modules "
+                                                       "rejects the configuration", expected=raised, observed=o)
+        if clean and obs["eager"] is not None and len(obs["trace"]) == len(ref):
+            fired = obs["trace"][-1]["fired"]
+            bad = case.get("bad")
+            want_raise = bad is not None and any(v == bad for _, v in fired[0])
+            e = obs["eager"]
+            if e["raised"] != want_raise or e["fired"] != fired or (not e["raised"] and not e["full"]):
                 return dict(key="lazy-differs-from-eager", what="the eagerly constructed module is built differently",
-                            expected=obs["trace"][-1]["fired"], observed=obs["eager"])
+                            expected=dict(fired=fired, raised=want_raise), observed=e)
         return None
     # encoder classes
     supplied = set(case["eager"])
     need = {"out_channels", "stats_list", "stype"}
+    bad = bool(case.get("bad_na"))
     if obs.get("exc"):
         return dict(key=f"lazy-encoder-raises:{case['cls']}", what=f"assigning a lazy attribute raised {obs['exc']}")
+    if obs["ctor_raised"] != (bad and supplied == need):
+        return dict(key="inadmissible-strategy-accepted" if bad else "lazy-encoder-raises:" + case["cls"],
+                    what=f"{case['cls']}(na_strategy={case.get('bad_na')}, all attributes given): constructor "
+                         f"raised={obs['ctor_raised']}", expected=bad and supplied == need, observed=obs["ctor_raised"])
+    if obs["ctor_raised"]:
+        return None
     steps = [None] + case["ops"]
+    was_full = False
     for i, (op, o) in enumerate(zip(steps, obs["trace"])):
         if op is not None and op[1] is not None and op[0] in need:
             supplied.add(op[0])
         full = supplied == need
-        if o["use_ok"] != full or o["full"] != full:
-            return dict(key="lazy-use-before-complete" if o["use_ok"] and not full else "lazy-refuses-complete",
-                        what=f"{case['cls']} after step {i}: complete={full}, is_fully_specified={o['full']}, a call "
-                             f"{'succeeds' if o['use_ok'] else 'raises'}", expected=full, observed=o)
+        completes = full and not was_full
+        was_full = full
+        if o["raised"] != (bad and completes and i > 0):
+            return dict(key="inadmissible-strategy-accepted" if bad else f"lazy-encoder-raises:{case['cls']}",
+                        what=f"{case['cls']}(na_strategy={case.get('bad_na')}) on {case['stype']}: step {i} "
+                             f"raised={o['raised']}; the completing assignment must raise exactly when the strategy "
+                             "is inadmissible", expected=bad and completes, observed=o)
+        runs = full and not bad
+        if o["use_ok"] != runs or o["full"] != full:
+            return dict(key="lazy-use-before-complete" if o["use_ok"] and not runs else "lazy-refuses-complete",
+                        what=f"{case['cls']} after step {i}: complete={full}, rejected={bad}, "
+                             f"is_fully_specified={o['full']}, a call {'succeeds' if o['use_ok'] else 'raises'}",
+                        expected=runs, observed=o)
         if o["n_init"] != (1 if full else 0):
             return dict(key="lazy-build", what=f"{case['cls']} after step {i}: init_modules ran {o['n_init']} time(s)",
                         expected=1 if full else 0, observed=o["n_init"])
-    e = obs.get("eager")
-    if e is None or not (e["same_state"] and e["same_out"] and e["n_init"] == 1):
-        return dict(key="lazy-differs-from-eager", what=f"{case['cls']} configured lazily (order {case['ops']}) differs "
-                                                        f"from the eagerly constructed encoder", observed=e)
+    if bad:
+        if not obs.get("eager_rejects"):
+            return dict(key="inadmissible-strategy-accepted", what=f"{case['cls']}(na_strategy={case['bad_na']}) on "
+                                                                   f"{case['stype']} was accepted at construction")
+        return None
+    if was_full:
+        e = obs.get("eager")
+        if e is None or not (e["same_state"] and e["same_out"] and e["n_init"] == 1):
+            return dict(key="lazy-differs-from-eager", what=f"{case['cls']} configured lazily (order {case['ops']}) "
+                                                            "differs from the eagerly constructed encoder", observed=e)
     return None
 
 
@@ -882,7 +969,7 @@ def nontrivial_sig(case, obs):
                            [b["t"] for b in case["batches"]]], default=str)
     if case["kind"] == "lazy":
         return json.dumps(["lazy", case["target"], case.get("cls"), case.get("lazy"), case.get("args"),
-                           case.get("eager"), case["ops"]])
+                           case.get("eager"), case["ops"], case.get("bad"), case.get("bad_na")])
     return json.dumps(["reject", case["present"], case["dict"]])
 
 
@@ -915,6 +1002,48 @@ def stats(cases, obss):
         else:
             d["reject_raised"] += bool(o.get("raised"))
     return d
+
+
+def sanity(cases, obss):
+    """Fail-closed distribution check: every case kind, every encoder class, every batch kind, rejecting and
+    non-rejecting lazy sequences and both rejection outcomes must be drawn; failing frames stay a minority."""
+    d = stats(cases, obss)
+    probs = []
+    for k in ("frame", "lazy", "reject"):
+        if d["kinds"].get(k, 0) == 0:
+            probs.append(f"case kind {k} never drawn")
+    nf = d["kinds"].get("frame", 0)
+    if nf >= 100:
+        for cls in sorted(CLS_OF):
+            if d["classes"].get(cls, 0) == 0:
+                probs.append(f"encoder class {cls} never assigned in a frame case")
+        for b in ("all", "empty", "rows"):
+            if d["batches"].get(b, 0) == 0:
+                probs.append(f"batch kind {b} never drawn")
+        if d["materialize_failed"] > 0.2 * nf:
+            probs.append(f"{d['materialize_failed']} of {nf} frames fail to materialize")
+        nb = sum(d["batches"].values())
+        if nb and d["batch_errors"] > 0.2 * nb:
+            probs.append(f"{d['batch_errors']} of {nb} batches raise")
+        if d["columns_perturbed"] and d["columns_moved"] < 0.5 * d["columns_perturbed"]:
+            probs.append("fewer than half of the perturbed input columns moved an output column")
+    lz = [(c, o) for c, o in zip(cases, obss) if c is not None and c["kind"] == "lazy" and "trace" in (o or {})]
+    if len(lz) >= 100:
+        for t in ("probe", "encoder"):
+            if d["lazy_targets"].get(t, 0) == 0:
+                probs.append(f"lazy target {t} never drawn")
+        rej = sum(1 for c, o in lz if o.get("ctor_raised") or any(st.get("raised") for st in o["trace"]))
+        done = sum(1 for c, o in lz if o["trace"] and o["trace"][-1]["full"] and not o.get("ctor_raised"))
+        if rej == 0:
+            probs.append("no lazy sequence ends in a configuration init_modules rejects")
+        if done == 0:
+            probs.append("no lazy sequence completes a module")
+        if not any(o["trace"] and not o["trace"][-1]["full"] for c, o in lz):
+            probs.append("no lazy sequence leaves the module incomplete")
+    nr = d["kinds"].get("reject", 0)
+    if nr >= 50 and (d["reject_raised"] == 0 or d["reject_raised"] == nr):
+        probs.append("stype_encoder_dict cases are all accepted or all rejected")
+    return probs
 
 
 # -------------------------------------------------------------------- Coq side
@@ -967,27 +1096,43 @@ def coq_term(case, obs):
                          + f" {C.cbool(raised)}")
         return "(" + " && ".join(f"({p})" for p in parts) + ")" if parts else None
     if case["kind"] == "lazy":
+        copt_nat = lambda v: C.copt(v, C.cnat)  # noqa: E731
         if case["target"] != "probe":
-            # the encoder classes share the generated signature: same state machine, values are opaque ids
+            # the encoder classes share the generated signature: same state machine, values are opaque ids;
+            # id 6 stands for the inadmissible na_strategy that init_modules rejects
             keys = ["out_channels", "stats_list", "stype", "post_module", "na_strategy"]
             ids = {"out_channels": 1, "stats_list": 2, "stype": 3}
             args = [ids[k] if k in case["eager"] else None for k in keys[:3]] + [4, None]
             if case["cls"] == "TimestampEncoder":
                 args[4] = 5
+            if case.get("bad_na"):
+                args[4] = 6
+            bad = "(Some 6%nat)" if case.get("bad_na") else "None"
             ops = [(k, None if v is None else ids.get(k, 9)) for k, v in case["ops"]]
             if obs.get("exc"):
                 return None
-            tr = C.clist(obs["trace"], lambda o: f"(({C.cbool(o['full'])}, {C.cbool(o['use_ok'])}), {o['n_init']}%nat)")
-            model = (f"map (fun t => (fst t, List.length (snd t))) (lazy_trace stype_encoder_params "
-                     f"stype_encoder_lazy_attrs {C.clist(args, lambda v: C.copt(v, C.cnat))} "
-                     + C.clist(ops, lambda p: f"({cs(p[0])}, {C.copt(p[1], C.cnat)})") + ")")
-            return (f"list_eqb (pair_eqb (pair_eqb Bool.eqb Bool.eqb) Nat.eqb) ({model}) {tr}")
-        snap = lambda sn: C.clist(sn, lambda kv: f"({cs(kv[0])}, {C.copt(kv[1], C.cnat)})")  # noqa: E731
-        tr = C.clist(obs["trace"], lambda o: f"(({C.cbool(o['full'])}, {C.cbool(o['use_ok'])}), "
-                                             f"{C.clist(o['fired'], snap)})")
-        return (f"lazy_trace_eqb (lazy_trace {C.clist(PROBE_PARAMS, cs)} {C.clist(case['lazy'], cs)} "
-                f"{C.clist(case['args'], lambda v: C.copt(v, C.cnat))} "
-                + C.clist(case["ops"], lambda p: f"({cs(p[0])}, {C.copt(p[1], C.cnat)})") + f") {tr}")
+            ctor = (f"construct nat stype_encoder_params stype_encoder_lazy_attrs (probe_init_ok {bad}) "
+                    f"{C.clist(args, copt_nat)}")
+            if obs["ctor_raised"]:
+                return f"(is_raised ({ctor}) && Nat.eqb (List.length (fired (state_of ({ctor})))) {obs['n_init']}%nat)"
+            tr = C.clist(obs["trace"], lambda o: f"((({C.cbool(o['full'])}, {C.cbool(o['use_ok'])}), "
+                                                 f"{C.cbool(o['raised'])}), {o['n_init']}%nat)")
+            model = (f"map (lazy_enc_obs {bad}) (lazy_trace stype_encoder_params stype_encoder_lazy_attrs {bad} "
+                     f"{C.clist(args, copt_nat)} "
+                     + C.clist(ops, lambda p: f"({cs(p[0])}, {copt_nat(p[1])})") + ")")
+            return f"lazy_enc_trace_eqb ({model}) {tr}"
+        snap = lambda sn: C.clist(sn, lambda kv: f"({cs(kv[0])}, {copt_nat(kv[1])})")  # noqa: E731
+        bad = C.copt(case.get("bad"), C.cnat)
+        if obs["ctor_raised"]:
+            ctor = (f"construct nat {C.clist(PROBE_PARAMS, cs)} {C.clist(case['lazy'], cs)} (probe_init_ok {bad}) "
+                    f"{C.clist(case['args'], copt_nat)}")
+            return (f"(is_raised ({ctor}) && list_eqb (list_eqb (pair_eqb String.eqb (opt_eqb Nat.eqb))) "
+                    f"(fired (state_of ({ctor}))) {C.clist(obs['fired'], snap)})")
+        tr = C.clist(obs["trace"], lambda o: f"((({C.cbool(o['full'])}, {C.cbool(o['use_ok'])}), "
+                                             f"{C.cbool(o['raised'])}), {C.clist(o['fired'], snap)})")
+        return (f"lazy_trace_eqb (lazy_trace {C.clist(PROBE_PARAMS, cs)} {C.clist(case['lazy'], cs)} {bad} "
+                f"{C.clist(case['args'], copt_nat)} "
+                + C.clist(case["ops"], lambda p: f"({cs(p[0])}, {copt_nat(p[1])})") + f") {tr}")
     # reject
     d = C.clist(case["dict"], lambda p: f"({H.cstype(p[0])}, enc_{p[1]})")
     keys = C.clist(obs["present"], H.cstype)
